@@ -29,7 +29,7 @@ All threads are advanced to their first yield point before the schedule starts
 setup thread 0 runs to completion first.  A schedule is the list of thread ids
 chosen at each step; `explore` enumerates all schedules with at most `bound`
 preemptions (a switch away from a thread that could have continued) by
-stateless re-execution, `random_schedules` adds seeded random ones.
+stateless re-execution, `random_chooser` gives seeded random ones.
 """
 from __future__ import annotations
 
@@ -435,11 +435,12 @@ class Controller:
 # choosers and schedule enumeration
 # --------------------------------------------------------------------------
 
-def follow(prefix):
+def follow(prefix, lenient=False):
     """follow `prefix`, then run non-preemptively (keep the last thread while it
-    can run, else the smallest runnable id)"""
+    can run, else the smallest runnable id).  lenient: a prefix entry that is not
+    runnable (replay of a schedule on changed code) falls back to the default."""
     def ch(k, rn, last):
-        if k < len(prefix):
+        if k < len(prefix) and (not lenient or prefix[k] in rn):
             return prefix[k]
         if last in rn:
             return last
